@@ -12,6 +12,10 @@ STATE_MAP = {"SUBMITTED": "submitted", "RUNNING": "running", "FAILED": "failed",
 
 
 class LocalAdapter(Hub):
+    def _on_cancel_request(self, tid):
+        self.cancel_log.append(tid)
+        self.cancel_requested.add((self.generation, tid))
+
     def __init__(self, world, cores, host="localhost", port=12345):
         super().__init__()
         self.world = world
@@ -23,6 +27,7 @@ class LocalAdapter(Hub):
         self.by_script = {}
         self.n_conn = 0
         self.cancel_log = []
+        self.cancel_requested = set()  # (generation, tid) of every cancel request the pool ever received
         self.reply_faults = {}  # k-th readline of the current invocation -> 'garbage' | 'eof'
         self.n_readline = 0
         self.fired = {}
@@ -39,7 +44,7 @@ class LocalAdapter(Hub):
                               hash_salt=w.knobs.get("hash_seed", 0) + self.generation)
         self.pool.__enter__()
         self.pool.on_enqueued_cb = self._enqueued
-        self.pool.on_cancel_cb = lambda tid: self.cancel_log.append(tid)
+        self.pool.on_cancel_cb = self._on_cancel_request
         self.pool.table.listeners.append(self)
         self.by_script = {}
         w.trace.log("pool_started", generation=self.generation, cores=self.cores)
